@@ -2,6 +2,7 @@ package ksim
 
 import (
 	"fmt"
+	"os"
 	"strings"
 	"time"
 )
@@ -11,7 +12,7 @@ import (
 // By convention the first alternative of every choice is the simplest one.
 func DrawScenario(t *Tape, property string) (*Scenario, Config) {
 	sc := &Scenario{NS: "ns1", Name: "web", AutoApprove: true}
-	families := []string{"cloneset-partition", "deploy-canary", "deploy-partition"}
+	families := []string{"cloneset-partition", "deploy-canary", "deploy-partition", "deploy-bluegreen"}
 	sc.Family = families[t.Next(len(families))]
 	sizes := []int{5, 1, 2, 3, 4, 7, 10}
 	sc.Replicas = sizes[t.Next(len(sizes))]
@@ -128,6 +129,9 @@ func DrawScenario(t *Tape, property string) (*Scenario, Config) {
 
 // applyProfile: per-property scenario weights and fault mix.  The set of active oracles never depends on it.
 func applyProfile(t *Tape, property string, sc *Scenario, cfg *Config) {
+	if os.Getenv("KSIM_FAMILY") != "" {
+		sc.Family = os.Getenv("KSIM_FAMILY") // exploration only
+	}
 	switch property {
 	case "C12":
 		sc.RolloutID = true
